@@ -277,7 +277,11 @@ std::pair<uint32_t, uint32_t> req_compactor<T, C, A>::compact(req_compactor& nex
   if (compaction_range.second - compaction_range.first < 2) throw std::logic_error("compaction range error");
 
   if ((state_ & 1) == 1) { coin_ = !coin_; } // for odd flip coin;
+#ifdef DATASKETCHES_VERIF
+  else { coin_ = random_utils::verif_random_bit(); }
+#else
   else { coin_ = random_utils::random_bit(); } // random coin flip
+#endif
 
   const auto num = (compaction_range.second - compaction_range.first) / 2;
   next.ensure_space(num);
@@ -493,7 +497,11 @@ comparator_(comparator),
 allocator_(allocator),
 lg_weight_(lg_weight),
 hra_(hra),
+#ifdef DATASKETCHES_VERIF
+coin_(random_utils::verif_random_bit()),
+#else
 coin_(random_utils::random_bit()),
+#endif
 sorted_(sorted),
 section_size_raw_(section_size_raw),
 section_size_(nearest_even(section_size_raw)),
